@@ -1588,6 +1588,11 @@ class Wtp:
                         self.expand_stack.append("ARGVAL-{}".format(k))
                         arg = expand_recurse(arg, parent, True)
                         self.expand_stack.pop()
+                        if m2:
+                            # A named value is trimmed after it has been
+                            # expanded, too: the expansion of a nested call
+                            # may start or end with whitespace
+                            arg = arg.strip()
                         ht[k] = arg
 
                     # Expand the body, either using ``template_fn`` or using
